@@ -67,15 +67,35 @@ fn available_for_bnb_after_reservations(
 
     // Reserve shares for Same Day matching on this acquisition date.
     // Per TCGA92/S106A(9), B&B is "subject to" Same Day rule (S105(1)).
-    // Reservation is tracked across all same-day lots for this date+ticker,
-    // so interleaved buys cannot over-reserve.
+    // The reservation is the day's total disposal quantity; it is a property of the
+    // acquisition date, not of the visiting disposal, so it must not shrink each time
+    // another earlier disposal looks at this purchase.
     let reservation_key = (tx.date, tx.ticker.clone());
-    let reservation_remaining = same_day_reservations
+    let same_day_disposals = *same_day_reservations
         .entry(reservation_key)
         .or_insert_with(|| same_day_disposal_quantity(tx.date, &tx.ticker, all_transactions));
 
-    let reserve_now = available_before_same_day.min((*reservation_remaining).max(Decimal::ZERO));
-    *reservation_remaining -= reserve_now;
+    // Same-day lots earlier in the list absorb the reservation first, so interleaved
+    // buys cannot over-reserve.
+    let absorbed_by_earlier_lots: Decimal = all_transactions
+        .iter()
+        .enumerate()
+        .take(idx)
+        .filter(|(_, other)| other.date == tx.date && other.ticker == tx.ticker)
+        .filter_map(|(other_idx, other)| match &other.operation {
+            Operation::Buy { amount, .. } => {
+                let claimed = future_consumption
+                    .get(&other_idx)
+                    .copied()
+                    .unwrap_or(Decimal::ZERO);
+                Some((*amount - claimed).max(Decimal::ZERO))
+            }
+            _ => None,
+        })
+        .sum();
+    let reservation_remaining = (same_day_disposals - absorbed_by_earlier_lots).max(Decimal::ZERO);
+
+    let reserve_now = available_before_same_day.min(reservation_remaining);
 
     available_before_same_day - reserve_now
 }
